@@ -217,7 +217,9 @@ Proof.
   destruct (merge_array (rest b) (s - dead b) (e - dead b)) as [[[r c0] c]|] eqn:E; cbn [bind]; [|discriminate].
   apply Mono_split in HM. destruct HM as [Hp [Hr Hc]].
   unfold blen in He.
-  destruct (merge_array_nd _ _ _ _ _ _ Hr ltac:(lia) ltac:(lia) E) as [-> [Hnd [Hsub Hlen]]].
+  assert (L1 : (s - dead b < e - dead b)%nat) by lia.
+  assert (L2 : (e - dead b <= length (rest b))%nat) by lia.
+  destruct (merge_array_nd _ _ _ _ _ _ Hr L1 L2 E) as [-> [Hnd [Hsub Hlen]]].
   rewrite N.eqb_refl, andb_false_r. intros Heq; inversion Heq; subst; clear Heq. cbn.
   repeat split; auto. apply Mono_split. cbn. repeat split; auto.
 Qed.
@@ -319,5 +321,260 @@ Proof.
   pose proof (next_glyphs_mono _ _ _ H E1) as H1.
   destruct (negb (ok b1)) eqn:Eok; [discriminate|]. intros E; inversion E; subst. unfold Mono in *. cbn.
   (* after next_glyphs of everything the rest is empty or nothing moved; in both cases the content is pre b1 ++ rest b1 restricted to pre *)
-  apply nd_app in H1. rewrite cls_app in H1. apply nd_app in H1. tauto.
+  rewrite cls_app in H1. apply nd_app in H1. tauto.
 Qed.
+
+Lemma merge_clusters_full_mono b s e b' :
+  Mono b -> Lvl01 b -> out_mode b = true -> (dead b <= s)%nat -> (e <= blen b)%nat ->
+  merge_clusters_full b s e = Ok b' ->
+  Mono b' /\ pre b' = pre b /\ length (rest b') = length (rest b) /\ dead b' = dead b
+  /\ out_mode b' = true /\ level b' = level b /\ (forall x, In x (cls (rest b')) -> In x (cls (rest b))).
+Proof.
+  intros HM HL Hout Hs He. unfold merge_clusters_full.
+  destruct (e - s <? 2)%nat; [intros E; inversion E; subst; repeat split; auto|].
+  destruct (level b =? 2) eqn:El; [apply N.eqb_eq in El; contradiction|].
+  apply merge_clusters_mono; assumption.
+Qed.
+
+Lemma cls_skipn_cons n o T : cls (skipn n (o :: T)) = skipn n (cluster o :: cls T).
+Proof. rewrite cls_skipn. reflexivity. Qed.
+
+Lemma replace_glyphs_mono b n gs b' :
+  Mono b -> Lvl01 b -> out_mode b = true -> replace_glyphs b n gs = Ok b' -> Mono b'.
+Proof.
+  intros H HL Hout. unfold replace_glyphs.
+  pose proof (ensure_Mono b (out_len b + length gs) H) as Hm. unfold make_room_for.
+  destruct (ensure b (out_len b + length gs)) as [okk b1]. cbn in Hm.
+  destruct okk; cbn [negb]; [|intros E; inversion E; subst; exact Hm].
+  destruct (length (rest b) <? n)%nat eqn:En; [discriminate|]. apply Nat.ltb_ge in En.
+  destruct (merge_clusters_full b (dead b) (dead b + n)) as [b2|] eqn:E2; cbn [bind]; [|discriminate].
+  assert (He : (dead b + n <= blen b)%nat) by (unfold blen; lia).
+  destruct (merge_clusters_full_mono _ _ _ _ H HL Hout (Nat.le_refl _) He E2) as [HM2 _].
+  destruct (rest b2) as [|orig t] eqn:Er; [discriminate|].
+  intros E; inversion E; subst. unfold Mono in *. cbn. rewrite Er in HM2.
+  rewrite !cls_app in *. rewrite cls_map_set_gid, cls_skipn_cons. cbn in HM2. rewrite <- app_assoc. apply nd_replace, HM2.
+Qed.
+
+Lemma last_cluster_In l c : last_cluster l = Some c -> In c (cls l).
+Proof.
+  unfold last_cluster. destruct (rev l) as [|x t] eqn:E; [discriminate|]. intros H; inversion H; subst.
+  apply In_cls. apply in_rev. rewrite E. left. reflexivity.
+Qed.
+
+Lemma delete_glyph_mono b b' :
+  Mono b -> Lvl01 b -> out_mode b = true -> delete_glyph b = Ok b' -> Mono b'.
+Proof.
+  intros H HL Hout. unfold delete_glyph.
+  destruct (rest b) as [|x t] eqn:Er; [discriminate|].
+  assert (Hskip : forall b0, skip_glyph b = Ok b0 -> Mono b0) by (intros b0; apply skip_glyph_mono, H).
+  unfold skip_glyph in Hskip. rewrite Er in Hskip.
+  match goal with |- (if ?c then _ else _) = _ -> _ => destruct c end.
+  { unfold skip_glyph. rewrite Er. apply Hskip. }
+  rewrite Hout. cbn [andb].
+  destruct (0 <? length (pre b))%nat.
+  - destruct (last_cluster (pre b)) as [old|] eqn:El; [|discriminate].
+    assert (Hle : old <= cluster x).
+    { apply Mono_split in H. destruct H as [_ [_ Hc]]. apply Hc; [apply last_cluster_In, El|rewrite Er; left; reflexivity]. }
+    destruct (cluster x <? old) eqn:Elt; [apply N.ltb_lt in Elt; lia|].
+    unfold skip_glyph. cbn. rewrite Hout. intros E; inversion E; subst.
+    specialize (Hskip (with_pr b (pre b) t (S (dead b)))). rewrite Hout in Hskip. apply Hskip. reflexivity.
+  - destruct t as [|y t'].
+    + unfold skip_glyph. rewrite Er. apply Hskip.
+    + destruct (merge_clusters_full b (dead b) (dead b + 2)) as [b1|] eqn:E1; cbn [bind]; [|discriminate].
+      assert (He : (dead b + 2 <= blen b)%nat) by (unfold blen; rewrite Er; cbn; lia).
+      destruct (merge_clusters_full_mono _ _ _ _ H HL Hout (Nat.le_refl _) He E1) as [HM1 _].
+      apply skip_glyph_mono, HM1.
+Qed.
+
+(* ---- flag operations do not touch clusters ---- *)
+
+Lemma cls_map_range_mask m s e l : cls (map_range (or_mask m) s e l) = cls l.
+Proof.
+  revert s e. induction l as [|x l IH]; intros s e; simpl; [reflexivity|].
+  destruct e as [|e]; [reflexivity|]. destruct s as [|s]; simpl; rewrite IH; reflexivity.
+Qed.
+
+Lemma cls_flag_while c stop m l : cls (fst (flag_while_ne_fwd c stop m l)) = cls l.
+Proof.
+  induction l as [|x l IH]; simpl; [reflexivity|]. destruct (cluster x =? stop); [reflexivity|].
+  destruct (flag_while_ne_fwd c stop m l) as [t' a]. simpl in IH.
+  destruct (cluster x =? c); simpl; rewrite IH; reflexivity.
+Qed.
+
+Lemma cls_flag_all c m l : cls (fst (flag_all_ne c m l)) = cls l.
+Proof.
+  simpl. induction l as [|x l IH]; simpl; [reflexivity|]. rewrite IH. destruct (cluster x =? c); reflexivity.
+Qed.
+
+Lemma cls_rev l : cls (rev l) = rev (cls l).
+Proof. apply map_rev. Qed.
+
+Lemma skipn_skipn_add {A} : forall (l : list A) a b, skipn a (skipn b l) = skipn (a + b) l.
+Proof.
+  induction l as [|x l IH]; intros a b; [rewrite !skipn_nil; reflexivity|].
+  destruct b as [|b]; [rewrite Nat.add_0_r; reflexivity|].
+  replace (a + S b)%nat with (S (a + b)) by lia. cbn. apply IH.
+Qed.
+
+Lemma slice_glue {A} (l : list A) s e : (s <= e)%nat -> firstn s l ++ slice l s e ++ skipn e l = l.
+Proof.
+  intros H. unfold slice. rewrite <- (firstn_skipn s l) at 4. f_equal.
+  rewrite <- (firstn_skipn (e - s) (skipn s l)) at 2. f_equal.
+  rewrite skipn_skipn_add. f_equal. lia.
+Qed.
+
+Lemma infos_set_glyph_flags_cls lvl l s e c m r :
+  (s <= e)%nat -> infos_set_glyph_flags lvl l s e c m = Ok r -> cls (fst r) = cls l.
+Proof.
+  intros Hse. unfold infos_set_glyph_flags.
+  destruct (s =? e)%nat; [intros E; inversion E; subst; reflexivity|].
+  destruct (nth_error l s) as [first|]; [|discriminate].
+  destruct (nth_error l (e - 1)) as [last|]; [|discriminate].
+  destruct ((lvl =? 2) || (negb (c =? cluster first) && negb (c =? cluster last)))%bool.
+  - pose proof (cls_flag_all c m (slice l s e)) as H1.
+    destruct (flag_all_ne c m (slice l s e)) as [mid' ap]. intros E; inversion E; subst. cbn [fst] in *.
+    rewrite !cls_app, H1, <- !cls_app, slice_glue by exact Hse. reflexivity.
+  - destruct (c =? cluster first).
+    + pose proof (cls_flag_while c (cluster first) m (rev (slice l s e))) as H1.
+      destruct (flag_while_ne_fwd c (cluster first) m (rev (slice l s e))) as [r' ap]. intros E; inversion E; subst. cbn [fst] in *.
+      rewrite !cls_app, cls_rev, H1, cls_rev, rev_involutive, <- !cls_app, slice_glue by exact Hse. reflexivity.
+    + pose proof (cls_flag_while c (cluster last) m (slice l s e)) as H1.
+      destruct (flag_while_ne_fwd c (cluster last) m (slice l s e)) as [mid' ap]. intros E; inversion E; subst. cbn [fst] in *.
+      rewrite !cls_app, H1, <- !cls_app, slice_glue by exact Hse. reflexivity.
+Qed.
+
+Lemma add_scratch_frame b a : pre (add_scratch b a) = pre b /\ rest (add_scratch b a) = rest b.
+Proof. unfold add_scratch. destruct a; cbn; auto. Qed.
+
+Lemma set_glyph_flags_cls b m s e interior from_out b' :
+  set_glyph_flags b m s e interior from_out = Ok b' -> cls (pre b' ++ rest b') = cls (pre b ++ rest b).
+Proof.
+  unfold set_glyph_flags.
+  set (s0 := match s with Some x => x | None => 0%nat end).
+  set (e0 := Nat.min (match e with Some x => x | None => blen b end) (blen b)).
+  destruct (e0 <? s0)%nat eqn:Ees.
+  - cbn [andb].
+    destruct interior, from_out; cbn [andb negb]; try discriminate; try (intros E; inversion E; subst; reflexivity).
+    + (* interior, from_out *) destruct (out_mode b) eqn:Eo; cbn [negb]; [|discriminate].
+      cbn [orb]. cbn [out_mode with_scratch negb]. rewrite Eo. cbn [negb pre rest dead level with_scratch].
+      destruct (length (pre b) <? s0)%nat eqn:E1; [discriminate|]. apply Nat.ltb_ge in E1.
+      destruct (e0 <? dead b)%nat; [discriminate|].
+      destruct (find_min_cluster (level b) (rest b) 0 (e0 - dead b) U32_MAX) as [c1|]; cbn [bind]; [|discriminate].
+      destruct (find_min_cluster (level b) (pre b) s0 (length (pre b)) c1) as [c|]; cbn [bind]; [|discriminate].
+      destruct (infos_set_glyph_flags (level b) (pre b) s0 (length (pre b)) c m) as [r1|] eqn:F1; cbn [bind]; [|discriminate].
+      destruct (infos_set_glyph_flags (level b) (rest b) 0 (e0 - dead b) c m) as [r2|] eqn:F2; cbn [bind]; [|discriminate].
+      intros E; inversion E; subst.
+      destruct (add_scratch_frame (add_scratch (with_pr (with_scratch b (N.lor (scratch b) SCRATCH_HAS_GLYPH_FLAGS)) (fst r1) (fst r2) (dead b)) (snd r1)) (snd r2)) as [-> ->].
+      destruct (add_scratch_frame (with_pr (with_scratch b (N.lor (scratch b) SCRATCH_HAS_GLYPH_FLAGS)) (fst r1) (fst r2) (dead b)) (snd r1)) as [-> ->].
+      cbn. rewrite !cls_app.
+      rewrite (infos_set_glyph_flags_cls _ _ _ _ _ _ _ E1 F1), (infos_set_glyph_flags_cls _ _ _ _ _ _ _ (Nat.le_0_l _) F2). reflexivity.
+    + (* not interior, from_out *) destruct (out_mode b) eqn:Eo; cbn [negb]; [|discriminate].
+      cbn [orb]. cbn [out_mode with_scratch negb]. rewrite Eo. cbn [negb pre rest dead level with_scratch].
+      destruct (length (pre b) <? s0)%nat; [discriminate|]. destruct (e0 <? dead b)%nat; [discriminate|].
+      intros E; inversion E; subst. cbn. rewrite !cls_app, !cls_map_range_mask. reflexivity.
+  - apply Nat.ltb_ge in Ees. cbn [andb].
+    destruct (interior && negb from_out && (e0 - s0 <? 2)%nat)%bool; [intros E; inversion E; subst; reflexivity|].
+    cbv zeta.
+    destruct (negb from_out || negb (out_mode (with_scratch b (N.lor (scratch b) SCRATCH_HAS_GLYPH_FLAGS))))%bool.
+    + cbn [out_mode with_scratch pre rest dead level].
+      destruct (out_mode b).
+      * destruct (s0 <? dead b)%nat; [discriminate|].
+        destruct (negb interior).
+        -- intros E; inversion E; subst. cbn. rewrite !cls_app, cls_map_range_mask. reflexivity.
+        -- destruct (find_min_cluster (level b) (rest b) (s0 - dead b) (e0 - dead b) U32_MAX) as [c|]; cbn [bind]; [|discriminate].
+           destruct (infos_set_glyph_flags (level b) (rest b) (s0 - dead b) (e0 - dead b) c m) as [r|] eqn:F; cbn [bind]; [|discriminate].
+           intros E; inversion E; subst.
+           destruct (add_scratch_frame (with_pr (with_scratch b (N.lor (scratch b) SCRATCH_HAS_GLYPH_FLAGS)) (pre b) (fst r) (dead b)) (snd r)) as [-> ->].
+           assert (Lse : (s0 - dead b <= e0 - dead b)%nat) by (clear - Ees; lia).
+           cbn. rewrite !cls_app. rewrite (infos_set_glyph_flags_cls _ _ _ _ _ _ _ Lse F). reflexivity.
+      * destruct (negb interior).
+        -- intros E; inversion E; subst. cbn. rewrite firstn_skipn, cls_map_range_mask. reflexivity.
+        -- destruct (find_min_cluster (level b) (pre b ++ rest b) s0 e0 U32_MAX) as [c|]; cbn [bind]; [|discriminate].
+           destruct (infos_set_glyph_flags (level b) (pre b ++ rest b) s0 e0 c m) as [r|] eqn:F; cbn [bind]; [|discriminate].
+           intros E; inversion E; subst.
+           destruct (add_scratch_frame (with_pr (with_scratch b (N.lor (scratch b) SCRATCH_HAS_GLYPH_FLAGS)) (firstn (dead b) (fst r)) (skipn (dead b) (fst r)) (dead b)) (snd r)) as [-> ->].
+           cbn. rewrite firstn_skipn. apply (infos_set_glyph_flags_cls _ _ _ _ _ _ _ Ees F).
+    + cbn [out_mode with_scratch pre rest dead level].
+      destruct (length (pre b) <? s0)%nat eqn:E1; [discriminate|]. apply Nat.ltb_ge in E1.
+      destruct (e0 <? dead b)%nat; [discriminate|].
+      destruct (negb interior).
+      * intros E; inversion E; subst. cbn. rewrite !cls_app, !cls_map_range_mask. reflexivity.
+      * destruct (find_min_cluster (level b) (rest b) 0 (e0 - dead b) U32_MAX) as [c1|]; cbn [bind]; [|discriminate].
+        destruct (find_min_cluster (level b) (pre b) s0 (length (pre b)) c1) as [c|]; cbn [bind]; [|discriminate].
+        destruct (infos_set_glyph_flags (level b) (pre b) s0 (length (pre b)) c m) as [r1|] eqn:F1; cbn [bind]; [|discriminate].
+        destruct (infos_set_glyph_flags (level b) (rest b) 0 (e0 - dead b) c m) as [r2|] eqn:F2; cbn [bind]; [|discriminate].
+        intros E; inversion E; subst.
+        destruct (add_scratch_frame (add_scratch (with_pr (with_scratch b (N.lor (scratch b) SCRATCH_HAS_GLYPH_FLAGS)) (fst r1) (fst r2) (dead b)) (snd r1)) (snd r2)) as [-> ->].
+        destruct (add_scratch_frame (with_pr (with_scratch b (N.lor (scratch b) SCRATCH_HAS_GLYPH_FLAGS)) (fst r1) (fst r2) (dead b)) (snd r1)) as [-> ->].
+        cbn. rewrite !cls_app.
+        rewrite (infos_set_glyph_flags_cls _ _ _ _ _ _ _ E1 F1), (infos_set_glyph_flags_cls _ _ _ _ _ _ _ (Nat.le_0_l _) F2). reflexivity.
+Qed.
+
+Lemma set_glyph_flags_mono b m s e i f b' : Mono b -> set_glyph_flags b m s e i f = Ok b' -> Mono b'.
+Proof. intros H E. unfold Mono. rewrite (set_glyph_flags_cls _ _ _ _ _ _ _ E). exact H. Qed.
+
+(* ---- the streaming alphabet ---- *)
+
+Definition stream_op (b : zbuf) (o : bop) : Prop :=
+  match o with
+  | ONextGlyph | ONextGlyphs _ | OSkip | OReplaceGlyph _ | OReplaceGlyphs _ _ | OOutputGlyph _
+  | OCopyGlyph | ODeleteGlyph | OMoveTo _ | OSync
+  | OUnsafeToBreak _ _ | OUnsafeToConcat _ _ | OUnsafeToBreakOut _ _ | OUnsafeToConcatOut _ _ => True
+  | OMergeClusters s e => (dead b <= s)%nat /\ (e <= blen b)%nat
+  | _ => False
+  end.
+
+Ltac guards :=
+  repeat match goal with
+         | |- (if ?c then _ else _) = _ -> _ => destruct c; [try discriminate|try discriminate]
+         end.
+
+Ltac via lem :=
+  match goal with
+  | |- match ?x with Ok _ => _ | Error _ => _ end = _ -> _ =>
+      let E := fresh "E" in let Heq := fresh "Heq" in
+      destruct x eqn:E; [|discriminate]; intros Heq; inversion Heq; subst; eapply lem; eauto
+  end.
+
+Theorem step_mono b o r b' :
+  stream_op b o -> Mono b -> Lvl01 b -> out_mode b = true ->
+  step b o = Ok (Some (r, b')) -> Mono b'.
+Proof.
+  intros Hs HM HL Hout. destruct o; cbn [stream_op] in Hs; try contradiction; cbn [step]; rewrite ?Hout; guards.
+  - via next_glyph_mono.
+  - via next_glyphs_mono.
+  - via skip_glyph_mono.
+  - via replace_glyph_mono.
+  - via replace_glyphs_mono.
+  - via output_glyph_mono.
+  - via copy_glyph_mono.
+  - via delete_glyph_mono.
+  - destruct (move_to b i) as [[r0 b0]|] eqn:E; [|discriminate]. intros Heq; inversion Heq; subst. eapply move_to_mono; eauto.
+  - destruct Hs as [H1 H2].
+    destruct (merge_clusters_full b s e) as [b0|] eqn:E; [|discriminate]. intros Heq; inversion Heq; subst.
+    destruct (merge_clusters_full_mono _ _ _ _ HM HL Hout H1 H2 E) as [H _]. exact H.
+  - via set_glyph_flags_mono.
+  - unfold unsafe_to_concat. destruct (produce_concat b); [via set_glyph_flags_mono|intros Heq; inversion Heq; subst; exact HM].
+  - via set_glyph_flags_mono.
+  - unfold unsafe_to_concat_from_outbuffer. destruct (produce_concat b); [via set_glyph_flags_mono|intros Heq; inversion Heq; subst; exact HM].
+  - destruct (sync b) as [[b0|]|] eqn:E; try discriminate. intros Heq; inversion Heq; subst. eapply sync_mono; eauto.
+Qed.
+
+(* sequences: every operation is a streaming operation issued in output mode at a monotone level *)
+Fixpoint guarded (b : zbuf) (ops : list bop) : Prop :=
+  match ops with
+  | [] => True
+  | o :: t => stream_op b o /\ Lvl01 b /\ out_mode b = true /\
+              match step b o with Ok (Some (_, b')) => guarded b' t | _ => True end
+  end.
+
+Theorem run_mono ops : forall b b', Mono b -> guarded b ops -> run b ops = Ok (Some b') -> Mono b'.
+Proof.
+  induction ops as [|o t IH]; intros b b' HM HG; cbn [run]; [intros E; inversion E; subst; exact HM|].
+  cbn [guarded] in HG. destruct HG as [Hs [HL [Hout HG]]].
+  destruct (step b o) as [[[r b1]|]|] eqn:E; try discriminate.
+  apply IH; [eapply step_mono; eauto|exact HG].
+Qed.
+
+(* non-increasing clusters (backward buffers): the same through list reversal of the cluster view *)
+Definition ni (l : list N) : Prop := nd (rev l).
